@@ -1,4 +1,5 @@
 import LruMem.Model.Step
+import LruMem.Model.MemSize
 /-!
 # `lrudriver`: replays the harness's operation lines on the Level A model
 
@@ -254,12 +255,122 @@ def processLine (s : St) (line : String) : St × String :=
       | _, _ => (s, "bad-op")
     | _ => (s, "bad-op")
 
+/-! ## size-estimation lines (C08 / C09) -/
+namespace Mem
+open LruMem.MemSize
+
+/-- parse `k` items with `p` -/
+def many {α : Type} (p : List String → Option (α × List String)) : Nat → List String → Option (List α × List String)
+  | 0, ts => some ([], ts)
+  | k + 1, ts => do
+    let (x, ts) ← p ts
+    let (xs, ts) ← many p k ts
+    some (x :: xs, ts)
+
+def parseTy : Nat → List String → Option (Ty × List String)
+  | 0, _ => none
+  | f + 1, toks =>
+    match toks with
+    | "prim" :: sz :: r => sz.toNat?.map fun n => (.prim n, r)
+    | "strlike" :: r => some (.strLike, r)
+    | "path" :: r => some (.path, r)
+    | "phantom" :: r => some (.phantom, r)
+    | "string" :: sz :: r => sz.toNat?.map fun n => (.stringLike n, r)
+    | "cstring" :: sz :: r => sz.toNat?.map fun n => (.cString n, r)
+    | "slice" :: r => do let (t, r) ← parseTy f r; some (.slice t, r)
+    | "array" :: sz :: n :: r => do
+      let sz ← sz.toNat?; let n ← n.toNat?; let (t, r) ← parseTy f r; some (.array sz n t, r)
+    | "tuple" :: sz :: k :: r => do
+      let sz ← sz.toNat?; let k ← k.toNat?; let (ts, r) ← many (parseTy f) k r; some (.tuple sz ts, r)
+    | "result" :: sz :: r => do
+      let sz ← sz.toNat?; let (t, r) ← parseTy f r; let (e, r) ← parseTy f r; some (.result sz t e, r)
+    | "hset" :: sz :: r => do
+      let sz ← sz.toNat?; let (t, r) ← parseTy f r; let (s, r) ← parseTy f r; some (.hashSet sz t s, r)
+    | "hmap" :: sz :: esz :: r => do
+      let sz ← sz.toNat?; let esz ← esz.toNat?
+      let (k, r) ← parseTy f r; let (v, r) ← parseTy f r; let (s, r) ← parseTy f r
+      some (.hashMap sz esz k v s, r)
+    | name :: sz :: r => do
+      let sz ← sz.toNat?
+      let (t, r) ← parseTy f r
+      match name with
+      | "ref" => some (.ref sz t, r)
+      | "box" => some (.box sz t, r)
+      | "option" => some (.option sz t, r)
+      | "wrapping" => some (.wrapping sz t, r)
+      | "range2" => some (.range2 sz t, r)
+      | "range1" => some (.range1 sz t, r)
+      | "lock" => some (.lock sz t, r)
+      | "vec" => some (.vec sz t, r)
+      | "bheap" => some (.binaryHeap sz t, r)
+      | _ => none
+    | _ => none
+
+def parseVal : Nat → List String → Option (TVal × List String)
+  | 0, _ => none
+  | f + 1, toks =>
+    match toks with
+    | "unit" :: r => some (.unit, r)
+    | "none" :: r => some (.none, r)
+    | "bytes" :: n :: r => n.toNat?.map fun n => (.bytes n, r)
+    | "buf" :: n :: r => n.toNat?.map fun n => (.buf n, r)
+    | "ref" :: r => do let (v, r) ← parseVal f r; some (.ref v, r)
+    | "box" :: r => do let (v, r) ← parseVal f r; some (.box v, r)
+    | "some" :: r => do let (v, r) ← parseVal f r; some (.some v, r)
+    | "ok" :: r => do let (v, r) ← parseVal f r; some (.ok v, r)
+    | "err" :: r => do let (v, r) ← parseVal f r; some (.err v, r)
+    | "wrap" :: r => do let (v, r) ← parseVal f r; some (.wrap v, r)
+    | "one" :: r => do let (v, r) ← parseVal f r; some (.one v, r)
+    | "two" :: r => do let (a, r) ← parseVal f r; let (b, r) ← parseVal f r; some (.two a b, r)
+    | "seq" :: k :: r => do let k ← k.toNat?; let (vs, r) ← many (parseVal f) k r; some (.seq vs, r)
+    | "tup" :: k :: r => do let k ← k.toNat?; let (vs, r) ← many (parseVal f) k r; some (.tup vs, r)
+    | "coll" :: cap :: k :: r => do
+      let cap ← cap.toNat?; let k ← k.toNat?; let (vs, r) ← many (parseVal f) k r; some (.coll cap vs, r)
+    | "set" :: cap :: k :: r => do
+      let cap ← cap.toNat?; let k ← k.toNat?; let (vs, r) ← many (parseVal f) k r
+      let (h, r) ← parseVal f r; some (.set cap vs h, r)
+    | "map" :: cap :: k :: r => do
+      let cap ← cap.toNat?; let k ← k.toNat?
+      let (ks, r) ← many (parseVal f) k r; let (vs, r) ← many (parseVal f) k r
+      let (h, r) ← parseVal f r; some (.map cap ks vs h, r)
+    | _ => none
+
+def line (l : String) : String :=
+  match l.splitOn " ; " with
+  | [a, b] =>
+    let atoks := a.splitOn " "
+    let bt := b.splitOn " "
+    match atoks with
+    | "M" :: tt =>
+      match parseTy 64 tt, parseVal 64 bt with
+      | some (t, []), some (v, []) =>
+        s!"heap={heapSize t v} val={valueSize t v} mem={memSize t v} alloc={allocBytes t v}"
+      | _, _ => "bad-mem"
+    | "H" :: tt =>
+      match parseTy 64 tt, bt with
+      | some (t, []), k :: rest =>
+        match k.toNat? with
+        | some k =>
+          match many (parseVal 64) k rest with
+          | some (vs, []) => s!"hsi={hsSumIter t vs} hse={hsSumExact t vs} vsi={vsSumIter t vs} vse={vsSumExact t vs}"
+          | _ => "bad-mem"
+        | none => "bad-mem"
+      | _, _ => "bad-mem"
+    | _ => "bad-mem"
+  | _ => "bad-mem"
+
+end Mem
+
 partial def loop (h : IO.FS.Stream) (out : IO.FS.Stream) (s : St) : IO Unit := do
   let line ← h.getLine
   if line.isEmpty then return ()
-  let (s', o) := processLine s line
-  out.putStrLn o
-  loop h out s'
+  if line.startsWith "M " || line.startsWith "H " then
+    out.putStrLn (Mem.line line.trimAscii.toString)
+    loop h out s
+  else
+    let (s', o) := processLine s line
+    out.putStrLn o
+    loop h out s'
 
 end Driver
 
